@@ -35,6 +35,23 @@ def NoEvict (A : Analyzer κ σ γ ρ Pkt Out) : TtlMap κ σ × γ → List Pkt
   | _, [] => True
   | s, p :: tr => ProgNoEvict (A.prog p) (A.time p) s.1 s.2 ∧ NoEvict A (A.step s p).1 tr
 
+/-- The executable eviction monitor used by the driver (`Prog.runNE`) computes the same result as
+`Prog.run` and reports `true` exactly when `ProgNoEvict` holds: the driver's "specified" flag is the
+theorem's hypothesis. -/
+theorem runNE_spec (pr : Prog κ σ γ ρ Out) (now : Nat) (m : TtlMap κ σ) (g : γ) :
+    (pr.runNE now m g).1 = pr.run now m g ∧
+      ((pr.runNE now m g).2 = true ↔ ProgNoEvict pr now m g) := by
+  induction pr generalizing m g with
+  | ret o => simp [Prog.runNE, Prog.run, ProgNoEvict]
+  | get k cont ih => simpa [Prog.runNE, Prog.run, ProgNoEvict] using ih _ m g
+  | insert k v ttl cont ih =>
+    have := ih (m.insert now k v ttl) g
+    simp only [Prog.runNE, Prog.run, ProgNoEvict, TtlMap.Fits, Bool.and_eq_true, decide_eq_true_eq]
+    exact ⟨this.1, by rw [this.2]; exact And.comm⟩
+  | set k v cont ih => simpa [Prog.runNE, Prog.run, ProgNoEvict] using ih (m.set now k v) g
+  | remove k cont ih => simpa [Prog.runNE, Prog.run, ProgNoEvict] using ih (m.remove k) g
+  | glob f cont ih => simpa [Prog.runNE, Prog.run, ProgNoEvict] using ih _ m (f g).1
+
 /-- A local program never changes the global state. -/
 theorem local_glob_unchanged (P : κ → Prop) (pr : Prog κ σ γ ρ Out) (h : pr.Local P)
     (now : Nat) (m : TtlMap κ σ) (g : γ) : (pr.run now m g).2.1 = g := by
